@@ -105,3 +105,12 @@ func LocalCopyOK(k Keeper, x int) int {
 	c.n = x
 	return c.n + k.cache.n
 }
+
+// local time zone
+func LocalZoneText(sec int64) string { return time.Unix(sec, 0).String() }
+
+func LocalZoneAddDate(sec int64) int64 { return time.Unix(sec, 0).AddDate(1, 0, 0).Unix() }
+
+func LocalZoneInstantOK(sec int64, d time.Duration) int64 { return time.Unix(sec, 0).Add(d).Unix() }
+
+func LocalZoneUTCOK(sec int64) string { return time.Unix(sec, 0).UTC().AddDate(1, 0, 0).String() }
